@@ -64,6 +64,23 @@ INT_BITS = {"u8": 8, "u16": 16, "u32": 32, "u64": 64, "u128": 128, "usize": 64,
             "i8": 8, "i16": 16, "i32": 32, "i64": 64, "i128": 128, "isize": 64}
 
 
+class Ref:
+    """A mutable reference into a modelled container (`v.last_mut()`, `&mut v[i]`)."""
+
+    def __init__(self, container, key):
+        self.container = container
+        self.key = key
+
+    def get(self):
+        return self.container[self.key]
+
+    def set(self, v):
+        self.container[self.key] = v
+
+    def __repr__(self):
+        return "&mut %r" % (self.get(),)
+
+
 class PyClosure:
     """A closure value: its body path and the environment it was created in (upvars share HIR ids)."""
 
@@ -75,7 +92,7 @@ class PyClosure:
         return "<closure %s>" % self.path
 
 
-LIST_IDENTITY = ("core::slice::<impl [T]>::iter", "core::ops::deref::Deref::deref", "core::iter::traits::collect::IntoIterator::into_iter",
+LIST_IDENTITY = ("core::slice::<impl [T]>::iter", "core::ops::deref::Deref::deref", "core::ops::deref::DerefMut::deref_mut", "core::slice::<impl [T]>::iter_mut", "core::iter::traits::collect::IntoIterator::into_iter",
                  "alloc::vec::Vec::<T, A>::as_slice", "core::iter::traits::iterator::Iterator::collect", "core::iter::traits::iterator::Iterator::copied",
                  "core::iter::traits::iterator::Iterator::cloned", "alloc::slice::<impl [T]>::to_vec")
 
@@ -105,6 +122,8 @@ class Interp:
             return False
         if k == "Guard":
             return self.match_pat(p["sub"], v, env) and self.truth(self.ev(p["cond"], env, 0))
+        if isinstance(v, Ref):
+            v = v.get()
         if isinstance(v, Opaque):
             raise Unknown("pattern on opaque value %r" % v)
         if k == "Variant":
@@ -166,7 +185,10 @@ class Interp:
     def ev(self, e, env, depth=0):
         k = e.get("k")
         if k in ("Borrow", "Deref", "Coerce", "RawBorrow"):
-            return self.ev(e["e"], env, depth)
+            v = self.ev(e["e"], env, depth)
+            if k == "Deref" and isinstance(v, Ref):
+                return v.get()
+            return v
         if k == "Lit":
             return e.get("v")
         if k == "Var":
@@ -267,6 +289,10 @@ class Interp:
             if isinstance(v, int) and t in INT_BITS:
                 return v
             return v
+        if k == "Assign":
+            val = self.ev(e["r"], env, depth)
+            self.assign(e["l"], val, env, depth)
+            return ()
         if k == "Return":
             raise ReturnEx(self.ev(e["e"], env, depth) if "e" in e else ())
         if k == "Break":
@@ -293,6 +319,35 @@ class Interp:
         if k == "Zst":
             return Opaque("zst")
         raise Unknown("expression kind " + str(k))
+
+    def assign(self, lhs, val, env, depth):
+        """Store into a variable, through a modelled reference, or into a field of a modelled struct."""
+        l = lhs
+        while l.get("k") in ("Borrow", "Coerce"):
+            l = l["e"]
+        if l.get("k") == "Var":
+            env[l["id"]] = val
+            return
+        if l.get("k") == "Deref":
+            target = self.ev(l["e"], env, depth)
+            if isinstance(target, Ref):
+                target.set(val)
+                return
+            inner = l["e"]
+            while inner.get("k") in ("Borrow", "Coerce", "Deref"):
+                inner = inner["e"]
+            if inner.get("k") == "Var":
+                env[inner["id"]] = val
+                return
+            raise Unknown("assignment through %r" % (target,))
+        if l.get("k") == "Field":
+            base = self.ev(l["e"], env, depth)
+            if isinstance(base, Ref):
+                base = base.get()
+            if isinstance(base, Enum):
+                base.fields[l["name"]] = val
+                return
+        raise Unknown("assignment target " + str(l.get("k")))
 
     def for_loop(self, e, env, depth):
         """`for PAT in ITER { BODY }` over a concrete integer range or list (bounded; tables only)."""
@@ -368,7 +423,13 @@ class Interp:
         args = e.get("args", [])
         for suf, fn in self.extern.items():
             if cal.endswith(suf) or gen.endswith(suf):
-                return fn([self.ev(a, env, depth) for a in args])
+                vals = []
+                for a in args:
+                    try:
+                        vals.append(self.ev(a, env, depth))
+                    except Unknown as e:
+                        vals.append(Opaque("unevaluated argument (%s)" % e))
+                return fn(vals)
         if gen == "core::ops::try_trait::Try::branch":
             v = self.ev(args[0], env, depth)
             if isinstance(v, Enum) and v.variant in ("Ok", "Some"):
@@ -380,7 +441,7 @@ class Interp:
             return self.ev(args[0], env, depth)
         if gen in LIST_IDENTITY:
             v = self.ev(args[0], env, depth)
-            if isinstance(v, (list, tuple)) or gen.endswith("Deref::deref"):
+            if isinstance(v, (list, tuple)) or gen.endswith(("Deref::deref", "DerefMut::deref_mut")):
                 return v
             raise Unknown("%s on %r" % (short(gen), v))
         if gen.startswith("core::iter::traits::iterator::Iterator::") or gen.startswith("core::iter::traits::double_ended::DoubleEndedIterator::"):
@@ -426,6 +487,45 @@ class Interp:
                     raise Unknown("skip/take count")
                 return v[k2:] if m == "skip" else v[:k2]
             raise Unknown("iterator method " + m)
+        if gen in ("alloc::vec::Vec::<T, A>::pop", "alloc::vec::Vec::<T, A>::push", "core::slice::<impl [T]>::last_mut", "core::slice::<impl [T]>::first_mut",
+                   "alloc::vec::Vec::<T, A>::clear", "alloc::vec::Vec::<T, A>::new", "alloc::vec::Vec::<T>::new"):
+            m = short(gen)
+            if m == "new":
+                return []
+            v = self.ev(args[0], env, depth)
+            if isinstance(v, Ref):
+                v = v.get()
+            if not isinstance(v, list):
+                raise Unknown("%s on %r" % (m, v))
+            if m == "pop":
+                return Enum("Option", "Some", {"0": v.pop()}) if v else Enum("Option", "None")
+            if m == "push":
+                v.append(self.ev(args[1], env, depth))
+                return ()
+            if m == "clear":
+                del v[:]
+                return ()
+            if not v:
+                return Enum("Option", "None")
+            return Enum("Option", "Some", {"0": Ref(v, len(v) - 1 if m == "last_mut" else 0)})
+        if gen in ("core::option::Option::<T>::is_some", "core::option::Option::<T>::is_none", "core::result::Result::<T, E>::is_ok", "core::result::Result::<T, E>::is_err"):
+            v = self.ev(args[0], env, depth)
+            if isinstance(v, Enum) and v.variant in ("Some", "None", "Ok", "Err"):
+                return v.variant == {"is_some": "Some", "is_none": "None", "is_ok": "Ok", "is_err": "Err"}[short(gen)]
+            raise Unknown("%s of %r" % (short(gen), v))
+        if gen in ("core::slice::<impl [T]>::split_first", "core::slice::<impl [T]>::split_last", "core::slice::<impl [T]>::first", "core::slice::<impl [T]>::last"):
+            v = self.ev(args[0], env, depth)
+            if not isinstance(v, (list, tuple)):
+                raise Unknown("%s of %r" % (short(gen), v))
+            v = list(v)
+            if not v:
+                return Enum("Option", "None")
+            m = short(gen)
+            if m == "split_first":
+                return Enum("Option", "Some", {"0": (v[0], v[1:])})
+            if m == "split_last":
+                return Enum("Option", "Some", {"0": (v[-1], v[:-1])})
+            return Enum("Option", "Some", {"0": v[0] if m == "first" else v[-1]})
         if gen in ("core::slice::<impl [T]>::is_empty", "alloc::vec::Vec::<T, A>::is_empty"):
             v = self.ev(args[0], env, depth)
             if isinstance(v, (list, tuple)):
